@@ -717,3 +717,17 @@ M('c01l-gap-dispatched-to-line-state', 'C01', 'break', RQ,
 M('c01l-identity-state-peeks', 'C01', 'break', RQ,
   '    // If the input buffer is empty, ask for more data.\n    if (bytes_to_consume == 0) return HTP_DATA;\n\n    // Consume data.\n    int rc = htp_tx_req_process_body_data_ex(',
   '    // If the input buffer is empty, ask for more data.\n    if (bytes_to_consume == 0) return HTP_DATA;\n    if (connp->in_current_data[connp->in_current_read_offset] == 0) connp->in_tx->flags |= HTP_REQUEST_INVALID;\n\n    // Consume data.\n    int rc = htp_tx_req_process_body_data_ex(', 'C01.l')
+
+# ---------------- C19.g / C07.j
+HK = 'htp/htp_hooks.c'
+M('c19g-hook-copy-registers-on-source', 'C19', 'break', HK,
+  '        if (htp_hook_register(&copy, callback->fn) != HTP_OK) {', '        if (htp_hook_register((htp_hook_t **) &hook, callback->fn) != HTP_OK) {', 'C19.g')
+M('c19g-hook-copy-skips-first', 'C19', 'break', HK,
+  '    for (size_t i = 0, n = htp_list_size(hook->callbacks); i < n; i++) {\n        htp_callback_t *callback = htp_list_get(hook->callbacks, i);\n        if (htp_hook_register(&copy',
+  '    for (size_t i = 0, n = htp_list_size(copy->callbacks); i < n; i++) {\n        htp_callback_t *callback = htp_list_get(hook->callbacks, i);\n        if (htp_hook_register(&copy', 'C19.g')
+M('c19g-set-config-destroys-unconditionally', 'C19', 'break', TX,
+  '    if (tx->is_config_shared == HTP_CONFIG_PRIVATE) {\n        htp_config_destroy(tx->cfg);\n    }\n\n    tx->cfg = cfg;', '    if (tx->cfg != cfg) {\n        htp_config_destroy(tx->cfg);\n    }\n\n    tx->cfg = cfg;', 'C19.g')
+M('c07j-request-decompressor-without-enable-test', 'C07', 'break', TX,
+  '    if (tx->connp->cfg->request_decompression_enabled) {\n        tx->request_content_encoding = HTP_COMPRESSION_NONE;', '    {\n        tx->request_content_encoding = HTP_COMPRESSION_NONE;', 'C07.j')
+M('c07j-left-over-not-destroyed', 'C07', 'break', TX,
+  '                if (tx->connp->req_decompressor != NULL) {\n                    htp_tx_req_destroy_decompressors(tx->connp);\n                }\n                tx->connp->req_decompressor = htp_gzip_decompressor_create(', '                tx->connp->req_decompressor = htp_gzip_decompressor_create(', 'C07.j')
